@@ -36,6 +36,7 @@ struct LStream {               // one logical Vorbis stream
   int channels = 0; long rate = 0; int bs0 = 0, bs1 = 0;
   int32_t serial = 0;
   int64_t nsamples = 0;        // intended / declared length
+  int64_t gp_offset = 0;       // granule position at which the link starts (spec A.2: a stream cut out of a longer one starts at a positive position)
   std::string desc;
 };
 
@@ -356,7 +357,7 @@ static inline void page_stream(const LStream &s, const Layout &lay, std::vector<
       bool last_pkt = pkt_done && i + 1 == np;
       if (last_pkt) { flush(true); break; }
       bool must = (int)lacing.size() >= 255 || (int)lacing.size() >= target_segs;
-      bool hdr_boundary = pkt_done && (i == 0 || i == 2 || (lay.hdr_split && i == 1));
+      bool hdr_boundary = pkt_done && (i == 0 || i == 2 || (lay.hdr_split && i == 1) || (s.gp_offset && i == 4));   // a non-zero start: the second audio packet must end its page (A.2)
       bool soft = pkt_done && body.size() >= target_bytes;
       if (must || hdr_boundary || soft) flush(false);
       if (pkt_done) break;
